@@ -11,11 +11,13 @@ OPTIONS (all optional, per kernel):
   scalars  {argument: [values]}     domain of a scalar argument instead of the generic one
   require  function(scalars)->bool  calling contract between the scalar arguments (tuples outside are not enumerated)
   extent   {array: scalar}          work arrays: extent given by a scalar argument, content after the call unspecified
+  kinds    {argument: kind}         argument kind (model/kernelspec.py) where the name-based inference does not apply
   nan      True                     floating-point data include NaN in the quick tier as well
   check    {output: checker}        outputs whose value is not unique: compared through a checker (below)
   per_root True                     explore every scalar tuple on its own budget share, smallest tuples first
   facet    function(scalars, ins)   names the documented peculiarities of the kernel that an input exercises; added to
                                     the signature of a mismatch so that known findings stay narrow
+  budget   fraction                 share of the tier's per-specialisation case cap (kernels of lesser importance)
   huge     False                    offsets/starts/stops without the member 2**32+1 (the kernel dereferences its data at
                                     every offset, so such a candidate is always outside the contract)
 
@@ -442,9 +444,11 @@ _SORT = {"nan": True, "per_root": True, "huge": False}
 OPTIONS["awkward_sort"] = dict(_SORT, require=_sort_contract)
 OPTIONS["awkward_argsort"] = dict(_SORT, check={"toptr": check_argsort})
 OPTIONS["awkward_quick_sort"] = dict(_SORT, scalars={"maxlevels": [8, 1]}, extent=_STACK)
-OPTIONS["awkward_quick_argsort"] = dict(_SORT, scalars={"maxlevels": [8, 1]}, extent=_STACK, check={"toptr": check_argsort})
+# no array class calls awkward_quick_argsort
+OPTIONS["awkward_quick_argsort"] = dict(_SORT, scalars={"maxlevels": [8, 1]}, extent=_STACK, check={"toptr": check_argsort},
+                                        budget=0.25)
 OPTIONS["awkward_unique"] = {"nan": True}
-OPTIONS["awkward_NumpyArray_subrange_equal"] = {"nan": True, "huge": False}
+OPTIONS["awkward_NumpyArray_subrange_equal"] = {"nan": True, "huge": False, "budget": 0.25}
 OPTIONS["awkward_ListOffsetArray_argsort_strings"] = {"per_root": True, "huge": False, "check": {"tocarry": check_argsort_strings},
                                                       "facet": facet_argsort_strings}
 OPTIONS["awkward_NumpyArray_sort_asstrings_uint8"] = {"per_root": True, "huge": False}
